@@ -308,8 +308,16 @@ class Reader:
                         sign = "+"
                     base = "d"
 
-        ioffset = int(offset)
-        iwidth = int(width)
+        try:
+            ioffset = int(offset)
+            iwidth = int(width)
+        except ValueError:
+            # e.g. more digits than int() is willing to convert
+            raise dns.exception.SyntaxError("invalid offset or width")
+        if iwidth > 65535:
+            # zero-filling to the width is an allocation; nothing in a record
+            # can be this long
+            raise dns.exception.SyntaxError("width too large")
 
         if sign not in ["+", "-"]:
             raise dns.exception.SyntaxError(f"invalid offset sign {sign}")
